@@ -214,6 +214,18 @@ pub mod verif_hooks {
     Ok(out.join(" "))
   }
 
+  /// The document the source printer builds for a whole module (what
+  /// `pretty_print_source_module` hands to the layout engine), in primitive nodes.
+  pub fn module_doc(
+    heap: &samlang_heap::Heap,
+    module: &samlang_ast::source::Module<()>,
+  ) -> String {
+    let d = super::source_printer::source_module_to_document(heap, module);
+    let mut out = Vec::new();
+    dump_into(&d, &mut out);
+    out.join(" ")
+  }
+
   /// `Document::flatten`, `None` for documents with a hard line.
   pub fn flatten(doc: &str) -> Result<Option<String>, String> {
     let d = parse_all(doc)?;
